@@ -195,6 +195,21 @@ func RunC12(d *Driver) *Report {
 			wire.WriteString("] print len")
 			run("range", src.String(), wire.String(), func(a string) string { return foldGet(a) })
 			r.Hist("range_body_len", strconv.Itoa(len(body)))
+			// the same loop WITHOUT a loop variable runs its body once per key that is still there when reached:
+			// against the Lean evaluator model, and as often as the loop with a variable
+			novar := true
+			for _, op := range body {
+				novar = novar && op.kind != "setk" && op.kind != "delk"
+			}
+			if novar {
+				s := src.String()
+				s1 := strings.Replace(strings.Replace(s, "for k := range m\n    print k\n", "cnt := 0\nfor range m\n    cnt = cnt + 1\n", 1), "end\nprint m\n", "end\nprint m cnt\n", 1)
+				s2 := strings.Replace(strings.Replace(s, "for k := range m\n    print k\n", "cnt := 0\nfor k := range m\n    cnt = cnt + (len k)\n", 1), "end\nprint m\n", "end\nprint m cnt\n", 1)
+				c := evalStream(r, d, "range-without-variable", s1, RunOpts{}, []string{"class", "trace", "globals"}, true, nil)
+				if o2 := RunSrc(s2, RunOpts{}); c.Skipped == "" && o2.Out != c.Real.Out {
+					r.Violation(Case{Stream: "range-without-variable", Input: s1, Real: trunc(c.Real.Out, 300), Spec: "as many iterations as the same loop with a loop variable: " + trunc(o2.Out, 300)})
+				}
+			}
 		}
 	}
 	// 3. copies made by array repetition are independent maps: operations on one copy (through two aliases)
